@@ -96,6 +96,10 @@ func newC03Sys(n, bitsPer int) *c03Sys {
 	for i := 0; i < n; i++ {
 		ws = append(ws, wd{Bridge: 1, Seq: uint64(i + 1), From: fmt.Sprintf("l2user%d", i%2), To: bob, Denom: "uxx", Amount: uint64(2 + i%3)})
 	}
+	// one L2 sender is written the way a Move/EVM rollup writes accounts
+	if n >= 3 {
+		ws[1].From = "0x1"
+	}
 	// leaf hashes with extreme first bytes: the first leaf's hash starts with 0x00, the last one's with
 	// 0xff (the L2 sender string is ground for it) — code that treats "looks empty" or "sorts first/last"
 	// specially meets both
@@ -299,6 +303,14 @@ func (y *c03Sys) perturbations(leaf int) []c03Pert {
 	add("from", "leading-space", false, func(c *c03Claim) { c.From = " " + c.From })
 	add("from", "trailing-newline", false, func(c *c03Claim) { c.From = c.From + "\n" })
 	add("from", "trailing-nul", false, func(c *c03Claim) { c.From = c.From + "\x00" })
+	add("from", "zero-padded", false, func(c *c03Claim) {
+		// the same number to a reader of hex account addresses, another string
+		if strings.HasPrefix(c.From, "0x") {
+			c.From = "0x0" + c.From[2:]
+		} else {
+			c.From = "0" + c.From
+		}
+	})
 	add("to", "trailing-space", false, func(c *c03Claim) { c.To = c.To + " " })
 	add("to", "leading-tab", false, func(c *c03Claim) { c.To = "\t" + c.To })
 	add("to", "other-valid", true, func(c *c03Claim) { c.To = alice })
